@@ -181,10 +181,6 @@ def props_restrict(E, res):
 # algebra, byte-level EVM argument marshalling, proof-size tables).  They are reported as uncovered cells, not claimed.
 UNCOVERED = {
     'evm.handle_filecoin_method': 'byte-level ABI marshalling before invoke_contract validates',
-    'miner.extend_sector_expiration2': 'BitField union before validation',
-    'miner.pre_commit_sector_batch2': 'BitField set before validation',
-    'miner.compact_sector_numbers': 'BitField::last before validation',
-    'miner.submit_windowed_post': 'RegisteredPoStProof::proof_size table before validation',
 }
 
 UNRESTRICTED = {'fil_actor_evm', 'fil_actor_eam', 'fil_actor_ethaccount', 'fil_actor_placeholder'}
